@@ -4,12 +4,13 @@ func init() { register("C19", checkC19) }
 
 func checkC19(p *Program, tier string) *Result {
 	r := newResult("C19")
-	r.Explanation = "R-SIBLING: the key-mismatch detector exempts clear-flag requests first and goes straight to the dispatch on the header type; per header type it tries exactly the bodies the specification lists (as does Request.Fields), declares a mismatch iff all of them report the length-sum error (threshold = number tried, counter incremented only on errors.As(err, *BadSecretErr) of each trial); in every body decoder the only producer of that error is 'decoded size != sum of the length fields read', before validation; the reply is the ERROR status of the reply type matching the header type; the reader writes the detector's reply exactly once, then returns (nil, error), and returns a packet only when the detector returned neither. R-LOOP(b,c): a read error means no handler and a closed connection. R-LAYOUT (decoders, cursor helpers): a well-formed body consumes exactly the announced bytes under its own layout, so it does not raise the mismatch error there (no false positive as long as the tried set contains every body of the type). R-PADSHAPE(f): the detector sees the de-obfuscated body."
+	r.Explanation = "R-FRESHBODY: the body of every packet built for sending (the reply writer, the key-mismatch reply) is not read from storage that outlives the packet - the writer XORs the pad into the body where it lies, so a cached reply body goes out obfuscated twice the second time. R-SIBLING: the key-mismatch detector exempts clear-flag requests first and goes straight to the dispatch on the header type; per header type it tries exactly the bodies the specification lists (as does Request.Fields), declares a mismatch iff all of them report the length-sum error (threshold = number tried, counter incremented only on errors.As(err, *BadSecretErr) of each trial); in every body decoder the only producer of that error is 'decoded size != sum of the length fields read', before validation; the reply is the ERROR status of the reply type matching the header type; the reader writes the detector's reply exactly once, then returns (nil, error), and returns a packet only when the detector returned neither. R-LOOP(b,c): a read error means no handler and a closed connection. R-LAYOUT (decoders, cursor helpers): a well-formed body consumes exactly the announced bytes under its own layout, so it does not raise the mismatch error there (no false positive as long as the tried set contains every body of the type). R-PADSHAPE(f): the detector sees the de-obfuscated body."
 	ruleSibling(p, r)
 	ruleLoop(p, r, "bc")
 	r.floor("R-LOOP", 3)
 	ruleLayout(p, r, "d", false)
 	rulePadCallSites(p, r)
+	ruleFreshBody(p, r)
 	r.Trusted = append(r.Trusted, "errors.As", "the body-types-per-header-type table (RFC 8907) in rule_sibling.go")
 	r.Assumptions = append(r.Assumptions, "the probability that a wrong key yields consistent lengths is inherent to the protocol and not decided")
 	return r
